@@ -41,11 +41,22 @@ def build_harness(race=False, cmd="vharness"):
     if key in _built:
         return _built[key]
     os.makedirs(BUILD, exist_ok=True)
-    out = os.path.join(BUILD, key)
     env = dict(os.environ, **GOENV)
     hdir = os.path.join(VERIF, "harness")
+    if REPO != "/repo":
+        # a scratch copy of biogo (seeded-change trials): build a copy of the harness module that points at it
+        tag = "alt-" + re.sub(r"[^A-Za-z0-9]", "_", REPO)
+        alt = os.path.join(BUILD, tag)
+        if os.path.isdir(alt):
+            shutil.rmtree(alt)
+        shutil.copytree(hdir, alt)
+        gm = open(os.path.join(alt, "go.mod")).read().replace("=> /repo", "=> " + REPO)
+        open(os.path.join(alt, "go.mod"), "w").write(gm)
+        hdir = alt
+        key = tag + "-" + key
+    out = os.path.join(BUILD, key)
     gosum = os.path.join(hdir, "go.sum")
-    if not os.path.exists(gosum):
+    if not os.path.exists(gosum) or REPO != "/repo":
         shutil.copy(os.path.join(REPO, "go.sum"), gosum)
     cmd = ["go", "build", "-tags", "verif"] + (["-race"] if race else []) + ["-o", out, "./cmd/" + cmd]
     t0 = time.time()
@@ -255,10 +266,11 @@ class Check:
             (name, r.generated, r.distinct, r.depth, r.wall, note))
 
     def violation(self, what, replay_obj):
-        os.makedirs(os.path.join(VERIF, "replays"), exist_ok=True)
+        rdir = os.environ.get("VERIF_REPLAY_DIR", os.path.join(VERIF, "replays"))
+        os.makedirs(rdir, exist_ok=True)
         n = len(self.violations)
         if n < 10:
-            path = os.path.join(VERIF, "replays", "%s-seed%d-%d.json" % (self.pid, self.seed, n))
+            path = os.path.join(rdir, "%s-seed%d-%d.json" % (self.pid, self.seed, n))
             json.dump({"property": self.pid, "what": what, "replay": replay_obj}, open(path, "w"), indent=1)
             log("VIOLATION property=%s replay=%s" % (self.pid, path))
             log("  what: %s" % what[:600])
@@ -288,8 +300,9 @@ class Check:
         ev = {"property_id": self.pid, "tier": self.tier, "seed": self.seed, "level": "model_checking",
               "coverage": cov, "assumptions": self.assumptions, "wall_s": round(wall, 1),
               "violations": len(self.violations)}
-        os.makedirs(os.path.join(VERIF, "evidence"), exist_ok=True)
-        json.dump(ev, open(os.path.join(VERIF, "evidence", self.pid + ".json"), "w"), indent=1)
+        evdir = os.environ.get("VERIF_EVIDENCE_DIR", os.path.join(VERIF, "evidence"))
+        os.makedirs(evdir, exist_ok=True)
+        json.dump(ev, open(os.path.join(evdir, self.pid + ".json"), "w"), indent=1)
         log("  [done] %s tier=%s seed=%d states=%d transitions=%d traces=%d violations=%d wall=%.0fs" %
             (self.pid, self.tier, self.seed, self.states, self.transitions, self.traces, len(self.violations), wall))
         return 1 if self.violations else 0
